@@ -61,6 +61,30 @@ Qed.
 
 Print Assumptions C12_locale_eqb_is_eq.
 Print Assumptions C12_locale_eq_iff_string.
+(* ExtensionsMap, the third value type with derived Eq / Ord: structural equality is Leibniz equality, the
+   derived ordering is a strict total order whose Equal class is equality, and - from the proved round trip -
+   two extension maps obtained through the safe API are equal iff their strings are *)
+Theorem C12_extmap_eqb_is_eq : forall a b, ext_eqb a b = true <-> a = b.
+Proof. exact ext_eqb_iff. Qed.
+Theorem C12_extmap_cmp_eq : forall a b, ext_cmp a b = Eq <-> a = b.
+Proof. exact ext_cmp_eq. Qed.
+Theorem C12_extmap_cmp_antisym : forall a b, ext_cmp b a = CompOpp (ext_cmp a b).
+Proof. exact ext_cmp_antisym. Qed.
+Theorem C12_extmap_cmp_trans : forall a b c, ext_cmp a b = Lt -> ext_cmp b c = Lt -> ext_cmp a c = Lt.
+Proof. exact ext_cmp_lt_trans. Qed.
+Theorem C12_extmap_eq_iff_string : forall a b, ext_inv a = true -> ext_inv b = true ->
+  (a = b <-> ext_to_string a = ext_to_string b).
+Proof.
+  intros a b Ha Hb. split; [intros ->; reflexivity|]. intros E.
+  pose proof (extmap_roundtrip a Ha) as Ra. pose proof (extmap_roundtrip b Hb) as Rb.
+  rewrite E in Ra. congruence.
+Qed.
+Print Assumptions C12_extmap_eqb_is_eq.
+Print Assumptions C12_extmap_cmp_eq.
+Print Assumptions C12_extmap_cmp_antisym.
+Print Assumptions C12_extmap_cmp_trans.
+Print Assumptions C12_extmap_eq_iff_string.
+
 Print Assumptions C12_locale_cmp_eq.
 Print Assumptions C12_locale_cmp_antisym.
 Print Assumptions C12_locale_cmp_trans.
